@@ -359,6 +359,11 @@ def guided(seed, n_ops, profile, welcome_error=None, finish_run=False):
                 if c0.conn.s2c and not (c0.svc.stopping is not None and not c0.svc.stopping.called):
                     choices += [["s2c", 0]] * 8
                 pdrop = 3 if profile == "drops" else 1
+                # in-flight commands lost: drop more readily while the client has written several
+                # frames the server has not processed yet (un-echoed adds stay pending and must be
+                # re-submitted by the next drain, in submission order)
+                if len(c0.conn.c2s) >= 2:
+                    pdrop *= 6
                 choices += [["drop", 0]] * pdrop
                 if len(W.msg_frames(0)) >= 1 and rng.random() < 0.3:
                     choices += [["dupmsg", 0, rng.randrange(4)]]
